@@ -269,7 +269,8 @@ def header_lists(headers, rng, tier, budget):
     for h in headers:
         add('single', [h])
     allpairs = [(a, b) for a in headers for b in headers if a != b]
-    npairs = max(1, int(round(60 * max(budget, 0.1))))
+    # every ordered pair in both tiers (132 pairs build in a few seconds); VERIF_BUDGET < 1 samples
+    npairs = len(allpairs) if budget >= 1 else max(1, int(round(60 * max(budget, 0.1))))
     if tier == 'thorough' or npairs >= len(allpairs):
         sample = list(allpairs)
         exhaustive = True
@@ -286,7 +287,7 @@ def header_lists(headers, rng, tier, budget):
         rng.shuffle(p)
         add('all', p)
     if tier == 'thorough' and len(headers) >= 3:
-        for _ in range(max(1, int(round(20 * max(budget, 0.1))))):
+        for _ in range(max(1, int(round(60 * max(budget, 0.1))))):
             k = rng.randint(3, len(headers))
             p = rng.sample(headers, k)
             add('subset', p)
